@@ -1,6 +1,7 @@
 import Monorail.Driver.C10
 import Monorail.Driver.C01
 import Monorail.Driver.C03
+import Monorail.Driver.C11
 open Lean Monorail.Driver
 
 def dispatch (j : Json) : Except String Json := do
@@ -9,6 +10,7 @@ def dispatch (j : Json) : Except String Json := do
   | "c10" => handleC10 j
   | "c01" => handleC01 j
   | "dag" => handleDag j
+  | "c11" => handleC11 j
   | "groups" => handleGroups j
   | "ping" => pure (Json.mkObj [("pong", true)])
   | _ => throw s!"unknown op {op}"
